@@ -25,7 +25,11 @@ Record observation := mkOb {
   ob_status : N;             (* 0 success, 1 fail, 2 none *)
   ob_tmp_after : N;
   ob_metric_applied : bool; ob_patch_applied : bool;
-  ob_bad : bool
+  ob_bad : bool;
+  (* per execution (one, or two when concurrent): what the hook process finds under the contract
+     variables and under the other variables of the operator's environment *)
+  ob_envs : list (list (N * option eval));
+  ob_foreign_touched : bool  (* a file named by the operator's own environment was created or changed (not part of P) *)
 }.
 
 (* ---------------------------------------------------------------- verdicts *)
@@ -218,10 +222,28 @@ Definition P_logic (i : input) (o : observation) : bool :=
       else negb (N.eqb (ob_status o) 0))                                            (* not even started: not a success *)
   && N.eqb (ob_tmp_after o) 0.                                                       (* temp files gone, whatever the outcome *)
 
+(* "environment variables pointing to a binding-context file ... and to empty metrics, patch,
+   admission-response and conversion-response files": the variable of each of the five files, as
+   the hook process finds it, is the path of THIS execution's file of that kind - whatever the
+   operator's own environment holds.  (The text names no other variable: nothing is demanded of
+   VALIDATING_RESPONSE_PATH or of variables inherited from the operator.) *)
+Definition contract : list (N * N) :=
+  [(var_context, file_context); (var_metrics, file_metrics); (var_patch, file_patch);
+   (var_admission, file_admission); (var_conversion, file_conversion)].
+Fixpoint seen (e : list (N * option eval)) (k : N) : option eval :=
+  match e with
+  | [] => None
+  | (k', v) :: r => if k' =? k then v else seen r k
+  end.
+Definition points_to_own (e : list (N * option eval)) : bool :=
+  forallb (fun kf => match seen e (fst kf) with Some (Own f) => f =? snd kf | _ => false end) contract.
+Definition P_env (o : observation) : bool := forallb points_to_own (ob_envs o).
+
 (* the part that is about the OS process: own directory, environment, file contents, unique names *)
 Definition P_os (i : input) (o : observation) : bool :=
   if ob_started o
   then ob_cwd_is_hook_dir o && ob_env_ok o && ob_context_matches o && ob_files_empty o && ob_paths_distinct o
+       && negb (match ob_envs o with [] => true | _ => false end) && P_env o
   else true.
 
 Definition P (i : input) (o : observation) : bool := P_logic i o && P_os i o.
